@@ -387,7 +387,7 @@ fn gen_define(rng: &mut Rng, k: &Knobs, m: &Model, fault: bool) -> Op {
 
 fn pick_target<'a>(rng: &mut Rng, k: &'a Knobs, m: &'a Model, fault: bool, pred: impl Fn(&Binding) -> bool) -> Option<(String, bool)> {
   // returns (name, is_fault_target). Fault targets: undefined (f2) or immutable (f3) names.
-  if fault && rng.chance(1, 2) {
+  if fault && (if k.profile == "C04" { rng.chance(1, 4) } else { rng.chance(1, 2) }) {
     let undefined = nosuchvars(k, m);
     let immut = names_where(m, |b| !b.mutable && pred(b));
     if !immut.is_empty() && (undefined.is_empty() || rng.chance(2, 3)) { return Some(((*rng.pick(&immut)).clone(), true)); }
@@ -442,7 +442,8 @@ fn gen_assign(rng: &mut Rng, k: &Knobs, m: &Model, fault: bool) -> Option<Op> {
 fn gen_idx_assign(rng: &mut Rng, k: &Knobs, m: &Model, fault: bool) -> Option<Op> {
   let (name, ft) = pick_target(rng, k, m, fault, |b| b.v.is_matrix())?;
   let (ek, r, c) = match m.store.get(&name).map(|b| &b.v) { Some(SV::Mat(ek, r, c, _)) => (ek.clone(), *r, *c), _ => ("f64".to_string(), 1, 3) };
-  let fk = if fault && !ft { rng.below(4) } else { 99 };
+  // C04's own rejections (target out of range, source kind) get most of the faults in its profile
+  let fk = if fault && !ft { if k.profile == "C04" { *rng.pick(&[0u64, 0, 0, 1, 1, 2, 3]) } else { rng.below(4) } } else { 99 };
   let vector_src = (rng.chance(1, 4) || fk == 3) && fk != 1 && literal_matrix_kind(&ek);
   let sub = gen_sub(rng, r, c, fk == 0, vector_src);
   // index held in a variable
@@ -489,7 +490,7 @@ fn gen_op_assign(rng: &mut Rng, k: &Knobs, m: &Model, fault: bool, indexed: bool
   let bop = *rng.pick(&[Bop::Add, Bop::Sub, Bop::Mul, Bop::Div]);
   let cur = m.store.get(&name).map(|b| b.v.clone());
   let (ek, r, c, is_mat) = match &cur { Some(SV::Mat(ek, r, c, _)) => (ek.clone(), *r, *c, true), Some(s) => (s.kind_tag(), 1, 1, false), None => ("f64".into(), 1, 1, false) };
-  let fk = if fault && !ft { rng.below(3) } else { 99 };
+  let fk = if fault && !ft { if indexed && k.profile == "C04" { *rng.pick(&[0u64, 0, 0, 1, 2]) } else { rng.below(3) } } else { 99 };
   if indexed {
     let vector_src = rng.chance(1, 4) && fk != 1 && literal_matrix_kind(&ek);
     let mut sub = gen_sub(rng, r, c, fk == 0, vector_src);
